@@ -504,7 +504,7 @@ func rulesC05(p *Prog, r *Report) {
 }
 
 func rulesC06(p *Prog, r *Report) {
-	r.Explanation = "Thin claim. Decides only structural necessary conditions of 'pool shares are fair': (R06.1) amm.Deposit rounds the minted share amount DOWN and the accepted coin amounts UP; (R06.2) amm.Withdraw rounds both withdrawn amounts DOWN and its first test is the last-share case pc == ps, which returns the reserves unchanged; (R06.3) ExecuteDepositRequest / ExecuteWithdrawRequest mint, accept, pay out and burn exactly the values returned by those two functions (and the request's own pool coin). The fairness inequality, the 1e-17 bound and the ranged-pool price range are NOT decided."
+	r.Explanation = "Thin claim. Decides only structural necessary conditions of 'pool shares are fair': (R06.1) amm.Deposit rounds the minted share amount DOWN and the accepted coin amounts UP; (R06.2) amm.Withdraw rounds both withdrawn amounts DOWN and its first test is the last-share case pc == ps, which returns the reserves unchanged; (R06.3) ExecuteDepositRequest / ExecuteWithdrawRequest mint, accept, pay out and burn exactly the values returned by those two functions (and the request's own pool coin); (R06.4) in the amm package the branch for an empty reserve and the branch for a reserve whose ratio rounds to zero choose the same price bound. The fairness inequality, the 1e-17 bound and the ranged-pool price range are NOT decided."
 	r.Assumptions = []string{"sdk math rounding primitives have their documented direction"}
 	dep := p.MustFunc("x/liquidity/amm.Deposit")
 	wd := p.MustFunc("x/liquidity/amm.Withdraw")
@@ -815,7 +815,126 @@ func rulesC06(p *Prog, r *Report) {
 			}
 		}
 	}
+	// R06.4 degenerate-reserve branches agree ---------------------------------------------------
+	// Contradiction rule (sibling agreement) inside the amm package: where a value is chosen
+	// on branches selected by "X is zero" and by "X / Y rounds to zero", both say that side X
+	// of the pool is (effectively) empty, so they must choose the same value; otherwise the
+	// ranged pool's price jumps from one end of its range to the other as a reserve shrinks.
+	r.Rule("R06.4", "amm: branches selected by 'X is zero' and by 'X/Y rounds to zero' choose the same value", 2)
+	for _, fn := range p.Funcs {
+		if fn.Pkg == nil || !strings.HasSuffix(fn.Pkg.Pkg.Path(), "x/liquidity/amm") || len(fn.Blocks) == 0 {
+			continue
+		}
+		for _, b := range fn.Blocks {
+			for _, in := range b.Instrs {
+				ph, ok := in.(*ssa.Phi)
+				if !ok {
+					continue
+				}
+				type choice struct {
+					val  ssa.Value
+					cond *ssa.Call
+					quo  bool
+				}
+				groups := map[ssa.Value][]choice{}
+				for i, e := range ph.Edges {
+					pred := b.Preds[i]
+					for _, cond := range trueConditionsInto(pred) {
+						call, ok := cond.(*ssa.Call)
+						if !ok || calleeShortName(&call.Call) != "IsZero" || len(call.Call.Args) != 1 {
+							continue
+						}
+						subj := call.Call.Args[0]
+						quo := false
+						if q, ok := subj.(*ssa.Call); ok && (calleeShortName(&q.Call) == "Quo" || calleeShortName(&q.Call) == "QuoTruncate") && len(q.Call.Args) == 2 {
+							subj = q.Call.Args[0]
+							quo = true
+						}
+						groups[subj] = append(groups[subj], choice{e, call, quo})
+					}
+				}
+				for subj, cs := range groups {
+					hasPlain, hasQuo := false, false
+					for _, c := range cs {
+						if c.quo {
+							hasQuo = true
+						} else {
+							hasPlain = true
+						}
+					}
+					if !hasPlain || !hasQuo {
+						continue
+					}
+					r.Instance("R06.4")
+					r.FuncsSeen[fname(fn)] = true
+					construct := fmt.Sprintf("%s value chosen when %s is (effectively) zero", fname(fn), valueName(subj))
+					same := true
+					for _, c := range cs[1:] {
+						if c.val != cs[0].val {
+							same = false
+						}
+					}
+					if same {
+						r.OK("R06.4", construct, "the exact and the rounded test choose the same value", p.instrPos(cs[0].cond))
+					} else {
+						r.Fail("R06.4", construct, "the branch for 'the reserve is zero' and the branch for 'its ratio to the other reserve rounds to zero' choose different values: an almost-empty side is priced at the opposite end of the range from an empty one", p.instrPos(cs[len(cs)-1].cond), nil)
+					}
+				}
+			}
+		}
+	}
 	_ = token.ADD
+}
+
+// trueConditionsInto: the conditions whose TRUE edge leads into block b, looking through
+// empty forwarding blocks and the `a || b` / `case a, b:` lowering (several If blocks whose
+// true edges meet in b).
+func trueConditionsInto(b *ssa.BasicBlock) []ssa.Value {
+	var out []ssa.Value
+	seen := map[*ssa.BasicBlock]bool{}
+	var rec func(c *ssa.BasicBlock, d int)
+	rec = func(c *ssa.BasicBlock, d int) {
+		if seen[c] || d > 4 {
+			return
+		}
+		seen[c] = true
+		for _, pr := range c.Preds {
+			if len(pr.Instrs) == 0 {
+				continue
+			}
+			if ifi, ok := pr.Instrs[len(pr.Instrs)-1].(*ssa.If); ok {
+				if pr.Succs[0] == c && pr.Succs[1] != c {
+					out = append(out, ifi.Cond)
+				}
+				continue
+			}
+			if len(pr.Instrs) == 1 { // forwarding block (a jump only)
+				rec(pr, d+1)
+			}
+		}
+	}
+	// b itself may be the block ending in the jump to the merge point
+	if len(b.Instrs) > 0 {
+		if ifi, ok := b.Instrs[len(b.Instrs)-1].(*ssa.If); ok {
+			_ = ifi
+			return nil
+		}
+	}
+	rec(b, 0)
+	return out
+}
+
+func valueName(v ssa.Value) string {
+	if c, ok := v.(*ssa.Call); ok {
+		if len(c.Call.Args) > 0 {
+			return valueName(c.Call.Args[0]) + "." + calleeShortName(&c.Call) + "()"
+		}
+		return calleeShortName(&c.Call) + "()"
+	}
+	if v.Name() != "" {
+		return v.Name()
+	}
+	return v.String()
 }
 
 // paramName: v is a parameter, or a load of the local a captured parameter was spilled to.
